@@ -53,12 +53,12 @@ STMT_KINDS = {
     'on': K_ON, 'off': K_OFF, 'stop': K_STOP, 'gs': K_GS, 'gs0': K_GS0,
     'gosub': K_GOSUB, 'ret': K_RET, 'retto': K_RETTO, 'onerr': K_ONERR, 'onerr0': K_ONERR0,
     'err': K_ERR, 'res': K_RES, 'resto': K_RESTO, 'end': K_END, 'start': K_START, 'run': K_RUN,
-    'clear': K_CLEAR, 'new': K_NEW, 'renum': K_RENUM, 'renum2': K_RENUM, 'chain': K_RUN, 'defkey': K_DEFKEY,
+    'clear': K_CLEAR, 'new': K_NEW, 'renum': K_RENUM, 'chain': K_RUN, 'defkey': K_DEFKEY,
 }
 ENV_KINDS = ('occ', 'occi', 'con', 'playq')
 EV_KINDS = ('on', 'off', 'stop', 'gs', 'gs0')
 PLAIN_KINDS = ('gosub', 'ret', 'retto', 'onerr', 'onerr0', 'err', 'res', 'resto', 'end', 'start', 'run',
-               'clear', 'new', 'renum', 'renum2', 'chain')
+               'clear', 'new', 'renum', 'chain')
 DISPATCH = 30      # targets per ON .. GOTO line
 
 
@@ -73,10 +73,10 @@ def stmt_text(kind, e):
             'onerr': 'ON ERROR GOTO %d' % ERR_LINE, 'onerr0': 'ON ERROR GOTO 0', 'err': 'ERROR 5',
             'res': 'RESUME NEXT', 'resto': 'RESUME 100', 'end': 'END', 'start': 'GOTO 100',
             'run': 'RUN 100', 'clear': 'CLEAR', 'new': 'NEW',
-            # renumber only the tail block (STRIG(6) handler): 6500 -> 6600 and back; the trap line of
-            # STRIG(6) and the references in the program text are remapped by RENUM
-            'renum': 'RENUM %d,%d,1' % (TAIL_ALT, TAIL_LINE),
-            'renum2': 'RENUM %d,%d,1' % (TAIL_LINE, TAIL_ALT),
+            # in the program: renumber the tail block (STRIG(6) handler) to where it is (RENUM rewrites
+            # these two numbers itself when the block moves); all side effects, same program.
+            # In direct mode the harness really moves the block, see Replayer.direct
+            'renum': 'RENUM %d,%d' % (TAIL_LINE, TAIL_LINE),
             'chain': 'CHAIN "D",100'}[kind]
 
 
@@ -108,12 +108,12 @@ def build_program():
     for e in TRACKED:
         name, _, _, line = EVENTS[e]
         rest.append((line, 'PRINT "<%s>"' % name))
-        rest.append((line + 1, 'GOTO 100'))
+        rest.append((line + (10 if line == TAIL_LINE else 1), 'GOTO 100'))
         markers[line] = e
     rest += [(ERR_LINE, 'PRINT "<H>"'), (ERR_LINE + 1, 'GOTO 100'), (SUB_LINE, 'PRINT "<G>"'),
              (SUB_LINE + 1, 'GOTO 100')]
     lines += ['%d %s' % x for x in sorted(rest)]
-    assert sorted(rest)[-1][0] == TAIL_LINE + 1
+    assert sorted(rest)[-1][0] == TAIL_LINE + 10
     markers[TAIL_ALT] = markers[TAIL_LINE]
     return '\n'.join(lines) + '\n', index, line_action, markers, nd
 
@@ -326,7 +326,7 @@ class Replayer(object):
             top = self.last_stack[0][1] if self.last_stack else None
             self.log.append(('mark', MARKER_LINES[ln], top))
         if ln in LINE_ACTION:
-            self.pending_stmt = self.resolve(LINE_ACTION[ln])
+            self.pending_stmt = LINE_ACTION[ln]
         if ln == 100:
             # environment actions: they are seen by the interpreter at the statement boundary before
             # line 110 (a handler entered there comes back to line 100 and continues the schedule)
@@ -353,18 +353,15 @@ class Replayer(object):
                 self.session.set_variable('ABC'[j] + '%', r + 1 if j == d else 0)
         self.log.append(('endhook',))
 
-    def resolve(self, st):
-        """what the statement about to run amounts to: RENUM 6500,6600,1 with the tail block already at
-        6500 fails with Illegal function call before it does anything"""
-        if st[0] == 'renum2' and TAIL_ALT not in self.impl.program.line_numbers:
-            return ('err', 0)
-        return st
-
     def direct(self, st):
         text = stmt_text(*st)
-        if st == ('gs', 27) and TAIL_LINE not in self.impl.program.line_numbers:
+        at_alt = TAIL_LINE not in self.impl.program.line_numbers
+        if st == ('gs', 27) and at_alt:
             text = text.replace(str(TAIL_LINE), str(TAIL_ALT))
-        st = self.resolve(st)
+        if st[0] == 'renum':
+            # really move the handler block of STRIG(6): 6500,6510 <-> 6600,6610; RENUM has to remap the
+            # trap line of STRIG(6) (through BasicEvents.all, the trap may be OFF) and the program text
+            text = 'RENUM %d,%d' % ((TAIL_LINE, TAIL_ALT) if at_alt else (TAIL_ALT, TAIL_LINE))
         self.direct_stmt = st
         self.pending_stmt = None
         out = self.session.execute(text)
@@ -478,7 +475,7 @@ class Rig(object):
             except _q.Empty:
                 pass
             if TAIL_LINE not in self.impl.program.line_numbers:
-                self.session.execute(stmt_text('renum2', 0))
+                self.session.execute('RENUM %d,%d' % (TAIL_LINE, TAIL_ALT))
             self.session.execute('100 REM')       # stores the line: clears stacks, variables, events, traps
             it = rep.it
             ev = self.impl.basic_events
@@ -573,7 +570,7 @@ def mon_violation(log):
                 interval = False
                 in_error_handler = False
                 had_error = False
-            elif k in ('renum', 'renum2'):
+            elif k == 'renum':
                 # the subroutine stack is dropped: the open trap routines can never RETURN
                 stuck |= set(fr[0] for fr in frames)
                 frames = []
@@ -646,24 +643,25 @@ class C38(core.Check):
     GEN = []
     PROPS = 'props/C38.v'
     MODEL_IMPORTS = ['model.Events']
-    QUICK_CASES = 600
-    THOROUGH_CASES = 2000
+    QUICK_CASES = 450
+    THOROUGH_CASES = 1500
     ALLOWED_AXIOMS = set()
     TRUSTED = ['hand model model/Events.v of BasicEvents.command / EventHandler flags / '
-               'Interpreter.handle_basic_events, jump_sub, return_, trap_error, resume_, set_pointer, END, RUN '
-               'and EventQueues._check_input gating, tied by replaying schedules on the real interpreter '
-               '(state vector + GOSUB stack compared at every dispatcher round)',
-               'TIMER runs on a fake clock (attribute of the Session clock object) and is predicted by the '
-               'model (Elapse/Poll); COM1 uses a fake char_waiting level; the order of simultaneous entries is '
-               'read from the frames the implementation pushed (the source iterates a set); PLAY, STRIG(2..6), COM2 and KEY 3..20 share the code path '
-               'but are not replayed; CLEAR/NEW/CHAIN/RENUM (BasicEvents.reset with a live GOSUB stack) and '
-               'Ctrl-Break are outside the action alphabet']
+               'Interpreter.handle_basic_events, jump_sub, return_, trap_error, resume_, set_pointer, END, RUN/CHAIN, '
+               'CLEAR, NEW, RENUM and EventQueues._check_input gating, tied by replaying schedules on the real '
+               'interpreter (state vector + GOSUB stack + PlayHandler.last/trig compared at every dispatcher round)',
+               'sources: KEY 1,2,5,11 and user-defined KEY 15,16, PEN, STRIG 0,2,6 by signals in the real input '
+               'queue; TIMER on a fake clock, PLAY on a fake Sound.tones_waiting, COM1/COM2 on a fake char_waiting '
+               '(attributes of the Session\'s own objects), all predicted by the model; the order of simultaneous '
+               'entries is read from the frames the implementation pushed (the source iterates a set); '
+               'Ctrl-Break, MERGE/LOAD/DELETE and multi-voice PLAY are outside the action alphabet']
     PARTIAL = None
-    RULE = ('schedules over KEY(1), KEY(2), TIMER, PEN, STRIG(0), COM(1): ON/OFF/STOP, ON..GOSUB n/0, occurrences '
-            '(in a statement loop or while idle), GOSUB/RETURN/RETURN n, ON ERROR/ERROR/RESUME, END, GOTO, RUN; '
+    RULE = ('schedules over 14 traps (KEY 1,2,5,11,15,16, TIMER, PLAY, PEN, STRIG 0,2,6, COM 1,2): ON/OFF/STOP, '
+            'ON..GOSUB n/0, KEY n definitions, occurrences (in a statement loop or while idle), queue lengths, '
+            'GOSUB/RETURN/RETURN n, ON ERROR/ERROR/RESUME, END, GOTO, RUN, CHAIN, CLEAR, NEW, RENUM (moving a handler); '
             'quick: random schedules; thorough: additionally ALL schedules over a 10-letter alphabet on two KEY '
-            'traps, up to length 4 after the set-up with both traps ON and up to length 3 with both OFF; non-trivial = at least one handler entered; '
-            'distinct by hash of (schedule, observations)')
+            'traps, up to length 4 after the set-up with both traps ON and up to length 3 with both OFF; '
+            'non-trivial = at least one handler entered; distinct by hash of (schedule, observations)')
     histogram = None
 
     # ---- cases
@@ -721,8 +719,8 @@ class C38(core.Check):
             S + [('on', 1), ('start', 0), ('occ', 1), ('occ', 1), ('renum', 0), ('start', 0), ('ret', 0),
                  ('on', 1), ('ret', 0)],
             # RENUM moves the handler of STRIG(6) while that trap is OFF (remapped through BasicEvents.all)
-            [('gs', 27), ('start', 0), ('renum', 0), ('start', 0), ('on', 27), ('occ', 27), ('ret', 0),
-             ('renum2', 0), ('renum2', 0), ('start', 0), ('gs', 27), ('occ', 27), ('ret', 0)],
+            [('gs', 27), ('renum', 0), ('start', 0), ('on', 27), ('occ', 27), ('ret', 0), ('renum', 0),
+             ('end', 0), ('renum', 0), ('start', 0), ('occ', 27), ('gs', 27), ('occ', 27), ('ret', 0)],
             S + [('on', 1), ('on', 2), ('start', 0), ('occ', 1), ('occ', 2), ('clear', 0), ('occ', 1), ('ret', 0),
                  ('gs', 1), ('on', 1), ('occ', 1), ('ret', 0)],
             S + [('on', 1), ('start', 0), ('occ', 1), ('occ', 1), ('new', 0), ('start', 0), ('gs', 1), ('on', 1),
@@ -752,7 +750,7 @@ class C38(core.Check):
         weights = [('occ', 30), ('occi', 3), ('on', 10), ('off', 6), ('stop', 8), ('ret', 14), ('gosub', 3),
                    ('retto', 2), ('err', 5), ('res', 5), ('resto', 1), ('end', 2), ('start', 4), ('run', 1),
                    ('gs', 2), ('gs0', 1), ('onerr', 1), ('onerr0', 1), ('con', 2), ('clear', 1), ('new', 1),
-                   ('renum', 2), ('renum2', 2), ('chain', 1)]
+                   ('renum', 3), ('chain', 1)]
         if PLAY in events:
             weights.append(('playq', 12))
         if any(e in USER_KEYS for e in events):
